@@ -222,14 +222,26 @@ V_GossipEmit ==
                      ELSE {} : t \in GossipTopics})
 
 (* P_C09_Publish *)
+\* the node's own publication under flood publishing: recipients are chosen by score alone (direct peers aside)
+FloodOwn(m) == cfg.flood /\ Act.a = "publish" /\ m = Act.m
+\* mesh / earlier fanout membership justifies a copy below the publish threshold - but not for FloodOwn messages
+MemberOK(q, x) == ~FloodOwn(x.m) /\ q \in MeshOf(Pre, x.topic) \cup FanoutOf(Pre, x.topic)
 V_Publish ==
-    \* a copy to a peer below the publish threshold is justified only by mesh / earlier fanout membership (or an IWANT)
+    \* a copy to a peer below the publish threshold is justified only by mesh / earlier fanout membership (or an IWANT);
+    \* read from the SendRPC / DropRPC traces ...
     UNION {LET q == Ev[i].p IN
            Chk(\/ Affected(q) \/ IsDirect(q) \/ Score(q) >= thr.publish
                \/ (IsStim /\ SP = q /\ IWants # {})
-               \/ \A j \in DOMAIN Ev[i].rpc.msgs :
-                     q \in MeshOf(Pre, Ev[i].rpc.msgs[j].topic) \cup FanoutOf(Pre, Ev[i].rpc.msgs[j].topic),
-               "P_C09_Publish", "copy-sent-below-threshold", q) : i \in {j \in EvIdx : Sent(Ev[j]) /\ Ev[j].rpc.msgs # <<>>}}
+               \/ \A j \in DOMAIN Ev[i].rpc.msgs : MemberOK(q, Ev[i].rpc.msgs[j]),
+               "P_C09_Publish",
+               IF \E j \in DOMAIN Ev[i].rpc.msgs : FloodOwn(Ev[i].rpc.msgs[j].m)
+                 THEN "flood-published-below-threshold" ELSE "copy-sent-below-threshold", q)
+           : i \in {j \in EvIdx : Sent(Ev[j]) /\ Ev[j].rpc.msgs # <<>>}}
+    \* ... and from the frames the fake peers received on the wire
+    \cup UNION {Chk(\/ Affected(q) \/ IsDirect(q) \/ Score(q) >= thr.publish
+                    \/ (IsStim /\ SP = q /\ IWants # {})
+                    \/ \A k \in DOMAIN L.out[q] : \A j \in DOMAIN L.out[q][k].msgs : MemberOK(q, L.out[q][k].msgs[j]),
+                    "P_C09_Publish", "copy-on-the-wire-below-threshold", q) : q \in DOMAIN L.out}
     \cup UNION {UNION {Chk(Affected(q) \/ (Score(q) >= thr.publish /\ ~IsDirect(q)),
                            "P_C09_Publish", "fanout-selected-below-threshold", q) : q \in FanoutOf(Post, t) \ FanoutOf(Pre, t)}
                 : t \in DOMAIN Post.fanout}
@@ -379,10 +391,23 @@ CovHb ==
                   \cup UNION {Tag("publish-fanout-fill", Rel(Score(q), thr.publish))
                               : q \in {x \in TopicPeers(Pre, t) \ FanoutOf(Pre, t) : MeshProto(Pre, x) /\ ~IsDirect(x)}}
                   : t \in DOMAIN Pre.fanout \cap DOMAIN Post.fanout}
+\* recipient classes and score bands of a publication
+Band(s) == IF s >= 0 THEN "nonneg" ELSE IF s >= thr.publish THEN "below0"
+           ELSE IF s >= thr.graylist THEN "belowpub" ELSE "belowgray"
+Class(q, t) == IF IsDirect(q) THEN "direct" ELSE IF ~MeshProto(Pre, q) THEN "floodsub"
+               ELSE IF q \in MeshOf(Pre, t) THEN "mesh" ELSE IF q \in FanoutOf(Pre, t) THEN "fanout" ELSE "plain"
+Audience(t) == {x \in TopicPeers(Pre, t) \cup MeshOf(Pre, t) : HasQ(x) /\ ~Affected(x)}
+CovFwd ==
+    IF ~(StimOK /\ cfg.flood) THEN {} ELSE
+      UNION {IF \E i \in EvIdx : Ev[i].k = "Deliver" /\ Ev[i].m = m.m /\ Ev[i].via = SP
+               THEN UNION {{"forward-under-flood/" \o Class(q, m.t) \o "/" \o Band(Score(q))} : q \in Audience(m.t) \ {SP}}
+               ELSE {} : m \in Msgs}
 CovPub ==
     IF ~(Act.a = "publish" /\ SelfDelivered(Act.m)) THEN {} ELSE
       LET t == Act.t IN
       (IF cfg.flood THEN UNION {Tag("publish-flood", Rel(Score(q), thr.publish)) : q \in {x \in TopicPeers(Pre, t) : ~IsDirect(x) /\ HasQ(x)}}
+                         \* "own publication under flood publish while a mesh member scored below the publish threshold" = flood-own/mesh/belowpub
+                         \cup UNION {{"flood-own/" \o Class(q, t) \o "/" \o Band(Score(q))} : q \in Audience(t)}
        ELSE UNION {Tag("publish-floodsub", Rel(Score(q), thr.publish)) : q \in {x \in TopicPeers(Pre, t) : ~MeshProto(Pre, x) /\ HasQ(x)}}
             \cup (IF ~Joined(Pre, t) /\ FanoutOf(Pre, t) = {}
                     THEN UNION {Tag("publish-fanout-sel", Rel(Score(q), thr.publish)) : q \in {x \in TopicPeers(Pre, t) : MeshProto(Pre, x) /\ ~IsDirect(x)}}
@@ -394,7 +419,7 @@ CovJoin ==
       UNION {IF ~Joined(Pre, t)
                THEN UNION {Tag("neg-join", Rel(Score(q), 0)) : q \in {x \in TopicPeers(Pre, t) : MeshProto(Pre, x) /\ ~IsDirect(x) /\ NoBackoff(t, x)}}
                ELSE {} : t \in DOMAIN Post.mesh}
-CovOf == IF ~Applies THEN {} ELSE CovStim \cup CovHb \cup CovPub \cup CovJoin
+CovOf == IF ~Applies THEN {} ELSE CovStim \cup CovHb \cup CovPub \cup CovFwd \cup CovJoin
 
 ---------------------------------------------------------------------------
 TInit == TLCSet(1, 0) /\ l = 1 /\ cfg = [router |-> "none"] /\ known = [pub |-> {}, msg |-> {}] /\ cov = {}
